@@ -126,6 +126,8 @@ def run(chk):
         cfg = FR.gen_config(rng, escape=False, kicks=False, cls="EvolvedMF")
         cfg["BH_ret_dyn"] = 1.0
         cfg["want_ifmr_grid"] = GRID
+        if len(cfgs) % 3 == 0:
+            cfg["imf_ext"] = "extrapolate"       # the primary constructor with a user-built, extrapolating IMF object
         cfgs.append(cfg)
     tight = [(dict(c), 1e-9) for c in cfgs[: (5 if chk.tier == "quick" else 30)]]
     outs = FR.run_many(cfgs + tight)
